@@ -12,11 +12,14 @@ package main
 
 import (
 	"bufio"
+	"bytes"
+	"compress/gzip"
 	"context"
 	"crypto/sha256"
 	"encoding/hex"
 	"encoding/json"
 	"fmt"
+	"io"
 	"math/rand"
 	"os"
 	"os/exec"
@@ -36,6 +39,7 @@ import (
 	"github.com/simimpact/srsim/pkg/logic/gcs/eval"
 	"github.com/simimpact/srsim/pkg/logic/gcs/parse"
 	"github.com/simimpact/srsim/pkg/model"
+	"github.com/simimpact/srsim/pkg/servermode"
 	"github.com/simimpact/srsim/pkg/simulation"
 	"verifharness/wire"
 )
@@ -88,6 +92,9 @@ func (o *realOut) digest() string {
 
 func realConfig(op *wire.Rec) *model.SimConfig {
 	cfg := &model.SimConfig{Settings: &model.SimulatorSettings{CycleLimit: uint32(op.Int("cycles")), Iterations: 1}}
+	if sc := op.Str("script"); sc != "" {
+		cfg.Logic = &model.SimConfig_Gcsl{Gcsl: unhex(sc)} // as a configuration file carries it (it is logged with the configuration)
+	}
 	chars, lcs := op.List("chars"), op.List("lcs")
 	eid, lvl := op.Ints("eidols"), op.Ints("levels")
 	relics := strings.Split(op.Str("relics"), ";")
@@ -482,6 +489,34 @@ func (realComp) Exec(c *wire.Case, w *wire.Writer) {
 					w.Ob(wire.R("differs").S("where", "later-run-logs").I("rep", len(prev)).I("line", n).S("a", fmt.Sprintf("<%d_lines_when_the_run_ended>", n)).S("b", clip(o.lg.lines[n])).S("kinds", o.kind+"/"+later.kind))
 				}
 			}
+			// the same run through the server's sample endpoint (pkg/servermode/sample.go), after all the others: its log is this run's log
+			if o.kind == "result" {
+				cfg := realConfig(op)
+				cfg.Logic = &model.SimConfig_Gcsl{Gcsl: unhex(op.Str("script"))}
+				if cj, err := cfg.MarshalJSON(); err == nil {
+					gz, err := func() (b []byte, err error) {
+						defer func() {
+							if r := recover(); r != nil {
+								err = fmt.Errorf("panic: %v", r)
+							}
+						}()
+						return servermode.VerifSampleLogs(string(cj), uint64(int64(op.Int("seed"))))
+					}()
+					var sl []string
+					if err == nil {
+						if zr, zerr := gzip.NewReader(bytes.NewReader(gz)); zerr == nil {
+							data, _ := io.ReadAll(zr)
+							sl = strings.Split(strings.TrimSuffix(string(data), "\n"), "\n")
+						}
+					}
+					if at, a, b := firstDiff(o.lines, sl); err != nil || at >= 0 {
+						if err != nil {
+							b = firstLine(err.Error())
+						}
+						w.Ob(wire.R("differs").S("where", "sample-endpoint").I("rep", len(prev)).I("line", at).S("a", clip(a)).S("b", clip(b)).S("kinds", o.kind+"/sample"))
+					}
+				}
+			}
 		case "conc":
 			// all runs of this case so far: one by one without loggers, then all at once
 			seq := make([]*realOut, len(prev))
@@ -702,6 +737,39 @@ func (realComp) Gen(r *rand.Rand, tier string, n int) []*wire.Case {
 			z := sample
 			z.seed = sd
 			cases = append(cases, &wire.Case{ID: fmt.Sprintf("d-seed-%d", sd), Ops: []*wire.Rec{z.rec("repeat").I("k", 3)}})
+		}
+		// directed: the light cones whose battle-start effects touch the whole team (they are active only on a wearer of their path)
+		{
+			has := func(l []string, k string) bool {
+				for _, x := range l {
+					if x == k {
+						return true
+					}
+				}
+				return false
+			}
+			team := func(id string, members ...[2]string) {
+				var cs, ls []string
+				for _, m := range members {
+					if !has(chars, m[0]) || !has(lcs, m[1]) {
+						return
+					}
+					cs, ls = append(cs, m[0]), append(ls, m[1])
+				}
+				s := realSpecGen(r, cs, lcs, relics)
+				s.chars, s.lcs = cs, ls // the order given here, not a shuffle of it
+				s.eidols, s.levels, s.relics = make([]int, len(cs)), make([]int, len(cs)), make([]string, len(cs))
+				for i := range cs {
+					s.levels[i], s.relics[i] = 80, "-"
+				}
+				s.quirk, s.cycles, s.ehp = 0, 4, 20000
+				s.script = realScript(r, cs)
+				cases = append(cases, &wire.Case{ID: id, Ops: []*wire.Rec{s.rec("repeat").I("k", 3)}})
+			}
+			team("d-cone-chorus", [2]string{"asta", "chorus"}, [2]string{"bronya", "chorus"}, [2]string{"danheng", "only_silence_remains"})
+			team("d-cone-fine-fruit", [2]string{"natasha", "fine_fruit"}, [2]string{"asta", "chorus"}, [2]string{"gepard", "day_one_of_my_new_life"})
+			team("d-cone-preservation", [2]string{"gepard", "day_one_of_my_new_life"}, [2]string{"march7th", "we_are_wildfire"}, [2]string{"natasha", "fine_fruit"}, [2]string{"bronya", "chorus"})
+			team("d-cone-wildfire", [2]string{"march7th", "we_are_wildfire"}, [2]string{"gepard", "we_are_wildfire"})
 		}
 		for i := 0; i < n; i++ {
 			s := realSpecGen(r, chars, lcs, relics)
